@@ -141,6 +141,8 @@ func (in zzCIn) String() string {
 		return fmt.Sprintf("Sign(key %d/%d, kind %d)", in.Branch, in.Index, in.MsgKind)
 	case cOrdinal:
 		return fmt.Sprintf("GetPublicKeyOrdinal(key %d/%d)", in.Branch, in.Index)
+	case cCount:
+		return [...]string{"CountAddresses()", "ListAddresses()", "ManagedAddresses()"}[in.N]
 	case cSetRemark:
 		return fmt.Sprintf("ChangeRemark(%q)", in.Remark)
 	case cExport, cUnlock:
@@ -167,6 +169,9 @@ func (o zzCOut) describe(in zzCIn) string {
 	case cOrdinal:
 		return fmt.Sprintf("found=%v ordinal=%d", o.Found, o.Ord)
 	case cCount:
+		if in.N != 0 {
+			return fmt.Sprintf("%d distinct addresses listed", o.Ext)
+		}
 		return fmt.Sprintf("external=%d internal=%d", o.Ext, o.Int)
 	case cGetRemark:
 		return fmt.Sprintf("%q", o.Remark)
@@ -221,6 +226,10 @@ func zzCStep(st zzCState, in zzCIn, out zzCOut) (bool, zzCState) {
 		}
 		return !out.Found, st
 	case cCount:
+		if in.N != 0 {
+			// ListAddresses / ManagedAddresses through the handle: every issued address, once
+			return out.Ext == st.Next[0]+st.Next[1], st
+		}
 		return out.Ext == st.Next[0] && out.Int == st.Next[1], st
 	case cSetRemark:
 		if out.Err {
@@ -381,6 +390,8 @@ func zzRunC14(r *sim.Run) {
 			case cOrdinal:
 				in.Branch = t.Choose("op.branch", 2)
 				in.Index = t.Choose("op.index", 6)
+			case cCount:
+				in.N = t.Choose("op.listing", 3)
 			case cSetRemark:
 				remarkCtr++
 				in.Remark = fmt.Sprintf("remark-%d", remarkCtr)
@@ -613,7 +624,22 @@ func (c *zzConc) exec(in zzCIn) (out zzCOut) {
 		out.Ord, out.Found = int(ord), found
 	case cCount:
 		for _, am := range kmc.GetManagedAddrManager() {
-			out.Ext, out.Int = am.CountAddresses()
+			switch in.N {
+			case 0:
+				out.Ext, out.Int = am.CountAddresses()
+			case 1:
+				seen := map[string]bool{}
+				for _, a := range am.ListAddresses() {
+					seen[a] = true
+				}
+				out.Ext, out.Int = len(seen), -1
+			default:
+				seen := map[string]bool{}
+				for _, ma := range am.ManagedAddresses() {
+					seen[hex.EncodeToString(ma.pubKey.SerializeCompressed())] = true
+				}
+				out.Ext, out.Int = len(seen), -1
+			}
 		}
 	case cSetRemark:
 		setErr(kmc.ChangeRemark(c.ksid, in.Remark))
